@@ -268,6 +268,15 @@ func init() {
 		}
 		a.D.Set(r)
 		o.DVal = DecVal(a.D)
+		// the new Decimal owns its coefficient: writing to it in place must not
+		// reach the BigInt it was made from
+		r.Coeff.Rsh(&r.Coeff, 1)
+		r.Coeff.Add(&r.Coeff, &r.Coeff)
+		r.Coeff.Not(&r.Coeff)
+		r.Coeff.SetBit(&r.Coeff, 0, 1)
+		if after := b.String(); after != before && o.Self == "" {
+			o.Self = fmt.Sprintf("the coefficient argument of NewWithBigInt changed when the new Decimal was written afterwards (shared storage): %s -> %s", before, after)
+		}
 		return o
 	})
 	reg("PkgNewFromString", KCtxStr, false, false, true, func(a *Args) Outcome {
@@ -324,7 +333,7 @@ func init() {
 	})
 	reg("SetFinite", KDecSet, false, false, true, func(a *Args) Outcome {
 		a.D.SetFinite(a.N, int32(a.N%97))
-		return Outcome{DVal: DecVal(a.D)}
+		return Outcome{Aux: DecVal(apd.New(a.N, int32(a.N%97))), DVal: DecVal(a.D)}
 	})
 	reg("SetFloat64", KDecSet, false, false, true, func(a *Args) Outcome {
 		_, err := a.D.SetFloat64(floatArg(a.N))
@@ -427,6 +436,10 @@ func init() {
 		o := Outcome{Err: errText(err)}
 		if string(keep) != string(coeff) {
 			o.Self = fmt.Sprintf("Compose modified the coefficient bytes it was given: %x -> %x", keep, coeff)
+		}
+		// the bytes stay the caller's: overwriting them afterwards must not reach D
+		for i := range coeff {
+			coeff[i] ^= 0xa5
 		}
 		if form == 0 {
 			o.DVal = DecVal(a.D)
